@@ -33,7 +33,13 @@ def cases(draw, est=None, max_n=20000):
             "loc_sd": draw(st.sampled_from([0.0, 0.0, 3.0, 1e2, -1e2, 1e4, -1e4, 1e6])),
             "log_scale": draw(st.sampled_from([0.0, 0.0, -6.0, 6.0, draw(st.floats(-6, 6))])),
             # "all fractions in (0,1)": also fractions holding less than one sample point, and nearly everything
-            "fraction": draw(st.one_of(st.sampled_from([0.68268, 0.95449, 0.5]), st.floats(0.05, 0.95), st.sampled_from([1e-4, 1e-3, 3e-3, 0.01, 0.99, 0.997])))}
+            "fraction": draw(st.one_of(st.sampled_from([0.68268, 0.95449, 0.5]), st.floats(0.05, 0.95), st.sampled_from([1e-4, 1e-3, 3e-3, 0.01, 0.99, 0.997]))),
+            # ... and fractions that hold only a handful of sample points (the fraction is then this count over the sample size)
+            "few_points": draw(st.one_of(st.none(), st.none(), st.none(), st.integers(1, 40)))}
+
+
+def fraction_of(case):
+    return case["fraction"] if case.get("few_points") is None else (case["few_points"] + 0.5) / case["n"]
 
 
 def make_sample(case):
@@ -188,7 +194,7 @@ def body_core(case, ctx):
     if abs(cv[0] - below) > TOL["norm"]:
         raise Violation(f"cdf-integral:{kind}", f"cdf({q[0]!r}) = {cv[0]!r} but the integral of the pdf below it is {below!r}")
     # ---- highest-density interval
-    fr = case["fraction"]
+    fr = fraction_of(case)
     with warnings.catch_warnings():
         warnings.simplefilter("ignore")
         with np.errstate(all="ignore"):
@@ -197,12 +203,14 @@ def body_core(case, ctx):
     if not (a < b):
         raise Violation(f"interval-order:{kind}", f"interval({fr}) = ({a!r}, {b!r})")
     mass = gl_integral(est, edges, a=a, b=b)
-    ctx.ratio(f"interval-mass:{kind}", abs(mass - fr), TOL["mass"])
-    if abs(mass - fr) > TOL["mass"]:
+    # (to 2 % of a small fraction: half a thousandth is most of a fraction of one in a thousand)
+    tol_mass = min(TOL["mass"], 0.02 * fr)
+    ctx.ratio(f"interval-mass:{kind}", abs(mass - fr), tol_mass)
+    if abs(mass - fr) > tol_mass:
         raise Violation(f"interval-mass:{kind}", f"{case['family']} n={case['n']} [{lc}]: interval({fr}) = ({a!r}, {b!r}) holds probability {mass!r} under the estimator's own density")
     with np.errstate(all="ignore"):
         cm = float(est.cdf(np.array([a, b]))[1] - est.cdf(np.array([a, b]))[0])
-    if abs(cm - fr) > TOL["mass"] + TOL["mass"]:
+    if abs(cm - fr) > 2 * tol_mass + 1e-7:
         raise Violation(f"interval-mass:{kind}", f"interval({fr}) holds {cm!r} under the estimator's own cdf")
     pa, pb = f(a), f(b)
     d = 1e-3 * (b - a)
@@ -317,7 +325,7 @@ def body_covariance(case, ctx):
     ctx.ratio(f"covariance-mode:{kind}", max(loss, 0), 2 * TOL["mode"])
     if loss > 2 * TOL["mode"] or abs(back - m0) > 0.25:
         raise Violation(f"covariance-mode:{kind}", f"[{lc}] mode of the shifted/scaled fit maps back to {back!r} where the unshifted fit's density is {loss * 100:.3f}% below its value at its own mode {m0!r}")
-    fr = case["fraction"]
+    fr = fraction_of(case)
     with warnings.catch_warnings():
         warnings.simplefilter("ignore")
         with np.errstate(all="ignore"):
